@@ -292,7 +292,11 @@ func (w *World) addrDeposit(o *tr.Op) string {
 		same := bitcointypes.VerifyDespositScriptV0(pk, evm, sc) == nil
 		otherKey := bitcointypes.VerifyDespositScriptV0(pk2, evm, sc) == nil
 		otherEvm := bitcointypes.VerifyDespositScriptV0(pk, evm2, sc) == nil
-		return fmt.Sprintf("%s same=%s otherkey=%s otherevm=%s", tr.Hex(sc), tr.B(same), tr.B(otherKey), tr.B(otherEvm))
+		res := fmt.Sprintf("%s same=%s otherkey=%s otherevm=%s", tr.Hex(sc), tr.B(same), tr.B(otherKey), tr.B(otherEvm))
+		if o.Has("mutpos") {
+			res += " mut=" + tr.B(bitcointypes.VerifyDespositScriptV0(pk, evm, mutate(sc, o.Int("mutpos"), byte(o.Int("mutval")))) == nil)
+		}
+		return res
 	}
 	a, data, err := bitcointypes.DepositAddressV1(pk, magic, evm, net)
 	if err != nil {
@@ -302,7 +306,20 @@ func (w *World) addrDeposit(o *tr.Op) string {
 	same := bitcointypes.VerifyDespositScriptV1(pk, magic, evm, sc, data) == nil
 	otherKey := bitcointypes.VerifyDespositScriptV1(pk2, magic, evm, sc, data) == nil
 	otherEvm := bitcointypes.VerifyDespositScriptV1(pk, magic, evm2, sc, data) == nil
-	return fmt.Sprintf("%s+%s same=%s otherkey=%s otherevm=%s", tr.Hex(sc), tr.Hex(data), tr.B(same), tr.B(otherKey), tr.B(otherEvm))
+	res := fmt.Sprintf("%s+%s same=%s otherkey=%s otherevm=%s", tr.Hex(sc), tr.Hex(data), tr.B(same), tr.B(otherKey), tr.B(otherEvm))
+	if o.Has("mutpos") {
+		res += " mut=" + tr.B(bitcointypes.VerifyDespositScriptV1(pk, magic, evm, mutate(sc, o.Int("mutpos"), byte(o.Int("mutval"))), data) == nil)
+	}
+	return res
+}
+
+// mutate: a copy of sc with the byte at pos replaced (unchanged when pos is out of range)
+func mutate(sc []byte, pos int, val byte) []byte {
+	c := append([]byte{}, sc...)
+	if pos >= 0 && pos < len(c) {
+		c[pos] = val
+	}
+	return c
 }
 
 // MsgOf builds the real sdk.Msg a `tx.*` operation describes.
